@@ -115,7 +115,7 @@ func Props(c *Ctx) map[string]*Prop {
 				})}})
 	add(&Prop{ID: "C20",
 		Explanation: "Decides the write discipline of the variable store for every site: who may write vars/Args/Opts/Aliases (PU4), the read-only guard in Set (PU5), the exact set of Set callers and no Unset caller (PU6), no error return after an assignment in expandParam (PU7), no store into the AST by the expander and none into an ExecEnv by the parser (PU3), and agreement of the special-parameter sets (TB8). That Get/Walk behave as a map after arbitrary histories is a value-level property and is not decided.",
-		Rules:       []Rule{rulePU5b(), rulePU3(), rulePU4(), rulePU6(), rulePU9(), ruleTB8(), ruleGR1("interp"), ruleNG1("interp"), rulePP1(), rulePU10()}})
+		Rules:       []Rule{ruleSP4(), rulePU5b(), rulePU3(), rulePU4(), rulePU6(), rulePU9(), ruleTB8(), ruleGR1("interp"), ruleNG1("interp"), rulePP1(), rulePU10()}})
 	add(&Prop{ID: "C05",
 		Explanation: "Decides only side conditions of the print/parse round trip: every semantic AST field and every Config field is read by the printer (TB6); pending here-document frames are balanced on every path under every combination of the style bits that guard them (PU8); the operator sets of scanner and expander/printer agree (TB10); nil-encoded fields are tested against nil (TB13); the positions the printer consults to space arithmetic tokens are counted in characters and End() adds the width of the stored token (BR1, TB5), and adjacency of two tokens is decided from line and column together (PS1); nothing reachable from Fprint can panic (PF1). Whether printed text re-parses to the same tree is not decidable structurally and is not claimed.",
 		Rules: []Rule{rulePR2(), rulePR3(), rulePR4(), rulePR1(), rulePS2(), ruleTB6(), rulePU8(), rulePU8b(), ruleLV1(), ruleTB10(), ruleTB13(), rulePF3("printer"), ruleBR1(), ruleTB5(), rulePS1("printer", "parser"), ruleGR1("parser"), ruleGR3(),
@@ -126,7 +126,7 @@ func Props(c *Ctx) map[string]*Prop {
 	add(&Prop{ID: "C13",
 		Explanation: "Decides the operator × state × nounset × special table of parameter expansion completely: for each of the 624 consistent valuations the outcome of every path of expandParam (value, word expanded, assignment, pattern removal, length, error kind) is extracted from the control-flow graph and compared with POSIX's table, including 'the word is expanded only when it is used' and 'assignment only under = / :=' (DT1); ${#p} counts runes (BR2); operator and special-parameter sets agree across packages (TB8, TB10, TB13); Set discipline (PU6/PU7); no panic (PF1). Field generation for $@ / $*, quoting of results and IFS joins are value-level and not decided.",
 		Assumptions: []string{"POSIX XCU 2.6.2 table frozen in the checker as oracle", "go.sh's documented Arith mode passes plain names through"},
-		Rules: []Rule{ruleBR5(), ruleQU1c(), ruleQU4(), ruleQU3b(), ruleOP1(), ruleAR6(), ruleDT1(), ruleBR2(), rulePU4(), ruleNG1("interp"), rulePP1(), ruleTB8(), ruleTB10(), ruleTB13(), rulePU6(), ruleFLD1(), ruleFLD2(), rulePF5(), ruleEF7(), ruleYY1("interp"), rulePF2(), ruleTB2(), ruleSP(),
+		Rules: []Rule{ruleSP4(), ruleBR5(), ruleQU1c(), ruleQU4(), ruleQU3b(), ruleOP1(), ruleAR6(), ruleDT1(), ruleBR2(), rulePU4(), ruleNG1("interp"), rulePP1(), ruleTB8(), ruleTB10(), ruleTB13(), rulePU6(), ruleFLD1(), ruleFLD2(), rulePF5(), ruleEF7(), ruleYY1("interp"), rulePF2(), ruleTB2(), ruleSP(),
 			pf1Rule("no index/slice/assertion in the expansion functions can panic", 20,
 				func(c *Ctx) (map[*core.Func]bool, map[*core.Func]bool) {
 					return c.scopeOf("interp.(*ExecEnv).Expand"), nil
@@ -137,7 +137,7 @@ func Props(c *Ctx) map[string]*Prop {
 	add(&Prop{ID: "C04",
 		Explanation: "Decides that columns are counted in characters at every site that manufactures a position (taint from byte lengths/offsets to NewPos, shift and the cursor, BR1) and that End() adds the width of the token actually stored in the field (TB5). That each fixed offset equals the number of characters read since the documented character, containment and ordering of positions are value-level and not decided.",
 		Assumptions: []string{"operator and reserved-word spellings are ASCII (checked against the tables)", "Comment.End is excluded by the property's text"},
-		Rules:       []Rule{ruleUR1(), ruleNL2(), ruleLB3(), ruleESC3(), ruleESC2(), rulePS2(), ruleBR1(), ruleTB5(), ruleGR1("parser"), ruleLX("PO1"), ruleRD1(), ruleSRC2(), ruleCM3(), ruleMK1(), ruleLBK()}})
+		Rules:       []Rule{ruleBR6(), ruleUR1(), ruleNL2(), ruleLB3(), ruleESC3(), ruleESC2(), rulePS2(), ruleBR1(), ruleTB5(), ruleGR1("parser"), ruleLX("PO1"), ruleRD1(), ruleSRC2(), ruleCM3(), ruleMK1(), ruleLBK()}})
 	add(&Prop{ID: "C07",
 		Explanation: "Decides a necessary condition of 'one call, one command': the newline that ends a command is never consumed silently — the newline-swallowing scanner is called only at grammar linebreak positions and never from the raw token scanner (RC4); and the reader is only touched by read/unread so look-ahead is undone through one place (EF1). Where exactly a command ends is language-level and not decided.",
 		Rules:       []Rule{ruleHD10(), rulePU3(), ruleCM3(), ruleTL1(), ruleLBK(), ruleHD9(), rulePS2(), ruleRC4(), ruleRC7(), ruleEF1(), ruleCC2("parser"), ruleHD(), ruleLX("HD1b"), ruleTK("SRC1"), ruleSRC2(), ruleNG1("parser")}})
@@ -179,6 +179,6 @@ func Props(c *Ctx) map[string]*Prop {
 		Rules:       []Rule{ruleQB1(), ruleQU1c(), ruleQU4(), ruleW1(), ruleESC3(), ruleESC2(), ruleQU(), ruleTB7(), ruleTB4(), ruleSP(), rulePF2(), ruleNG1("pattern", "interp"), ruleRD1(), ruleSRC2(), ruleESC1(), ruleGL()}})
 	add(&Prop{ID: "C17",
 		Explanation: "Decides termination and position side conditions of alias substitution: an alias is pushed only after a membership test on the active stack (RC3), only a single unquoted literal can be substituted, assignments are recognised first, and substitution happens only at command-name / alias-continuation positions (AL1); the 'ends in a blank' test uses the scanner's blank set (TB11 in TB7); alias-driven loops are the only non-read-driven cycles (RC2); the nested lexer of a command substitution shares the alias stack, so an alias value containing `$(` is lexed as text of the alias (NL1). Equality with textual replacement is language-level and not decided.",
-		Rules:       []Rule{ruleAL4(), ruleRC3(), ruleTB7(), ruleRC2("parser"), ruleLX("AL2", "AL3"), ruleNL1(), ruleNL2(), ruleRC8()}})
+		Rules:       []Rule{ruleAL5(), ruleAL4(), ruleRC3(), ruleTB7(), ruleRC2("parser"), ruleLX("AL2", "AL3"), ruleNL1(), ruleNL2(), ruleRC8()}})
 	return m
 }
